@@ -59,6 +59,21 @@ func c18Run(c *Ctx) {
 		opts |= flags.HelpFlag
 	}
 	d := GenDecl(c.Sub("d"), c18Cfg(opts))
+	// long names that are proper prefixes of other long names of the same group (--log beside --log-level)
+	for _, g := range d.Grps {
+		var ls []*Opt
+		for _, o := range g.Opts {
+			if o.Long != "" {
+				ls = append(ls, o)
+			}
+		}
+		if len(ls) >= 2 && r.Chance(1, 2) {
+			ls[1].Long = ls[0].Long + r.Pick([]string{"-level", "x", "2"})
+		}
+		if len(ls) >= 3 && r.Chance(1, 3) {
+			ls[2].Long = ls[0].Long + "-file"
+		}
+	}
 	// hidden items whose names share a one-letter prefix with visible ones: long names all start with "o",
 	// command names with "c" by construction.
 	class := []string{"long-partial", "bare-dashes", "bare-dash", "value-long-eq", "value-short-eq", "value-short-attached", "value-separate", "command-partial", "positional-value", "after-plain-arg", "short-partial"}[(c.K/3)%11]
